@@ -67,7 +67,7 @@ m("c06-accept-trailing-frame", "C06", COMMS, "                if len(data) != 2:
 # ---- C07 ------------------------------------------------------------------------------------------------
 m("c07-conflict-announces", "C07", DS, "                        \"mode\": \"redundant\",\n                    }\n                )\n                return time_ns()", "                        \"mode\": \"redundant\",\n                    }\n                )\n                callback(self.maddress, DatasetPublished(ds=payload.header.ds, origin=self.host, transmit_idx=payload.header.confirm_idx))\n                return time_ns()", "redundant payload announced again")
 m("c07-invalid-not-checked", "C07", DS, "                        if m.header.ds in self.invalid:", "                        if m.header.ds in self.invalid and False:", "payload after purge resurrects the dataset")
-m("c07-fresh-syn-on-resend", "C07", DS, "            syn = Syn(command.idx, self.dlistener.address)", "            syn = Syn(command.idx + (1000 if command.idx in self.acks or self.awaiting_confirmation.get(command.idx, (None, 0))[1] == -1 and command.idx % 2 else 0), self.dlistener.address)", "resend uses a different Syn for odd idx: duplicates not suppressed")
+m("c07-fresh-syn-on-resend", "C07", DS, "            syn = Syn(command.idx, self.dlistener.address)", "            resent = self.__dict__.setdefault(\"_resent\", set())\n            syn = Syn(command.idx + (100000 if command.idx in resent else 0), self.dlistener.address)\n            resent.add(command.idx)", "a resend uses a new Syn: the receiver cannot recognise it as a duplicate")
 m("c07-wrong-deser-fun", "C07", DS, "                deser_fun=buf.deser_fun,\n            )\n            payload = DatasetTransmitPayload(header, value=buf.view())", "                deser_fun=buf.deser_fun if buf.l > 1 else \"cloudpickle.loads\",\n            )\n            payload = DatasetTransmitPayload(header, value=buf.view())", "decoding function lost for tiny datasets")
 # ---- C08 ------------------------------------------------------------------------------------------------
 m("c08-credit-at-submission", "C08", SHMD, "        ds.status = DatasetStatus.paging_out\n\n        def callback(ok: bool) -> None:\n            if ok:\n                ds.status = DatasetStatus.on_disk\n                logger.debug(f\"pageout of {key} -> {ds} finished\")\n                with self.pageout_one:\n                    self.free_space += ds.size", "        ds.status = DatasetStatus.paging_out\n        self.free_space += ds.size\n\n        def callback(ok: bool) -> None:\n            if ok:\n                ds.status = DatasetStatus.on_disk\n                logger.debug(f\"pageout of {key} -> {ds} finished\")\n                with self.pageout_one:\n                    self.free_space += 0", "space credited when the page-out is submitted")
@@ -139,3 +139,14 @@ m("c19-accept-missing-output", "C19", BUILD, "                if not output_para
 m("c19-old-values-win", "C19", BUILD, "        new_kwargs = {**self.static_input_kw, **kwargs}", "        new_kwargs = {**kwargs, **self.static_input_kw}", "earlier keyword values win over new ones")
 m("c19-with-node-mutates", "C19", BUILD, "        return replace(self, nodes=self.nodes.set(name, task))", "        self.nodes = self.nodes.set(name, task)\n        return self", "with_node mutates the builder in place")
 m("c19-no-source-task-test", "C19", BUILD, "            if not source_task:\n                yield f\"edge pointing from non-existent task {edge.source}\"", "            if not source_task:\n                pass", "dangling source task accepted")
+
+
+# Mutants that turned out not to break the property (kept for the record; the runner annotates them):
+EQUIVALENT = {
+    "c01-fetch-second-host-ignored": "a filter on transfer-completion events of outputs named '1': the fetch was already queued by the worker's own notice -- no observable change",
+    "c04-source-preparing": "ds2host keeps insertion order and the producer's host is always first and available once a consumer is computable, so the wider eligibility set never selects another host",
+    "c10-static-left-in-place": "the upstream value overwrites the static string in runner.run -- no observable change",
+    "c13-join-outer": "for inputs inside the domain (equal coordinates on the other dimensions) outer and exact alignment coincide; outside it both versions raise",
+    "c14-source-names-not-unique": "the hash part of the name still separates sources with different payload arguments; identical payloads are the same computation",
+    "c05-dataserver-not-checked": "a dead data server is still reported within the bounded retry budget of the acknowledged layer (fetch / transmit commands to it are retried 20 x 0.8 s, then the controller raises): the run ends, later",
+}
